@@ -155,15 +155,14 @@ def main(argv):
                 os.remove(os.path.join(EVID, "replay", f))
 
     # ---- 1. proofs ----
+    # the tables generated from /repo's current source are refreshed on EVERY run (2 s), so that no check ever
+    # compiles against tables left behind by a run on another tree; only their owners depend on them
     pre_infra = []
-    if cfg.get("scan") == 'ast':
-        # regenerates coq/gen/SupportGen.v from /repo's Support.h through clang's JSON AST
-        rc, out, _ = pipeline.sh([sys.executable, os.path.join(VERIF, "gen", "ast2coq.py")], timeout=600)
-        if rc != 0:
-            pre_infra.append(("gen/ast2coq.py cannot translate Support.h any more (construct outside the translated fragment)", out[-3000:]))
-    elif cfg.get("scan"):
-        import scan_sites
-        scan_sites.main()          # regenerates coq/gen/Sites.v and Shared.v from /repo's current headers
+    import scan_sites
+    scan_sites.main()          # coq/gen/Sites.v, coq/gen/Shared.v  (owners: C09, C18)
+    rc, out, _ = pipeline.sh([sys.executable, os.path.join(VERIF, "gen", "ast2coq.py")], timeout=600)   # coq/gen/SupportGen.v (owner: C13)
+    if rc != 0 and cfg.get("scan") == 'ast':
+        pre_infra.append(("gen/ast2coq.py cannot translate Support.h any more (construct outside the translated fragment)", out[-3000:]))
     bad = pipeline.hygiene_gate()
     ok, thms, assumptions, plog = pipeline.prove(pid)
     obligations = len(thms) + 1        # + the correspondence relation
